@@ -1,2 +1,96 @@
-(* C16 - placeholder while the proofs are being written; replaced below. *)
-From PV Require Import Base.Prelude.
+(* C16 - on-disk encodings match the PICO-8 cart formats, not merely each other.
+   Property theorems only; proofs live in Proofs/ (GfxProofs, HexSectionProofs, MusicProofs, SfxProofs, SfxLines, PngProofs, C16Proofs).
+   The reference formats (the spec_ definitions) are Spec/P8Format.v, written from the format descriptions;
+   the models (gfx_to_lines, sfx_from_lines, pd_pixel, ...) mirror picotool's code around kernels
+   regenerated from the source on every run. *)
+From PV Require Import Base.Prelude Base.PySlice Model.HexSection Model.Gfx Model.Gff Model.MapSec Model.Sfx
+  Model.Music Model.PngStego Generated.K_p8png Spec.P8Format Proofs.PngProofs Proofs.C16Proofs.
+
+(* gfx / label: every region that is a whole number of 64-byte rows (8192 bytes = 128 rows) *)
+Theorem C16_gfx : forall k d, length d = (k * 64)%nat -> Forall byte d ->
+  gfx_to_lines d = spec_gfx_lines d /\ gfx_from_lines (spec_gfx_lines d) = Ok d.
+Proof. exact gfx_section. Qed.
+Print Assumptions C16_gfx.
+
+Theorem C16_gff : forall d, Forall byte d ->
+  gff_to_lines d = spec_hex_lines d /\ base_from_lines (spec_hex_lines d) = Ok d.
+Proof. exact gff_section. Qed.
+Print Assumptions C16_gff.
+
+Theorem C16_map : forall d, Forall byte d ->
+  map_to_lines d = spec_hex_lines d /\ base_from_lines (spec_hex_lines d) = Ok d.
+Proof. exact map_section. Qed.
+Print Assumptions C16_map.
+
+(* music: the reader returns the bytes minus the one bit the text format has no place for *)
+Theorem C16_music : forall k d, length d = (k * 4)%nat -> Forall byte d ->
+  music_to_lines d = Ok (spec_music_lines d) /\ music_from_lines (spec_music_lines d) = Ok (music_norm d).
+Proof. exact music_section. Qed.
+Print Assumptions C16_music.
+
+(* sfx: all 64 patterns x (4 header bytes + 32 notes); every one of the 65,536 note words *)
+Theorem C16_sfx : forall d, length d = 4352%nat -> Forall byte d ->
+  sfx_to_lines d = Ok (spec_sfx_lines d) /\ sfx_from_lines (spec_sfx_lines d) = Ok d.
+Proof. exact sfx_section. Qed.
+Print Assumptions C16_sfx.
+
+(* .p8.png: the byte read from any pixel (any number of planes, any column) is the format's byte *)
+Theorem C16_png_read : forall row planes col r g b a,
+  py_get row (col * planes + 0) = Ok r -> py_get row (col * planes + 1) = Ok g ->
+  py_get row (col * planes + 2) = Ok b -> py_get row (col * planes + 3) = Ok a ->
+  byte r -> byte g -> byte b -> byte a ->
+  pd_pixel row planes col = Ok (spec_pixel_byte r g b a).
+Proof. exact pd_pixel_spec. Qed.
+Print Assumptions C16_png_read.
+
+(* the four channel values stored for a byte are the format's, whatever the carrier pixel was *)
+Theorem C16_png_write : forall (row : Z -> Z) col planes p,
+  let r := row (col * planes + 0) in let g := row (col * planes + 1) in
+  let b := row (col * planes + 2) in let a := row (col * planes + 3) in
+  byte r -> byte g -> byte b -> byte a -> byte p ->
+  (pn_val_2 row col planes p, pn_val_1 row col planes p, pn_val_0 row col planes p, pn_val_3 row col planes p)
+  = spec_pixel_hide r g b a p.
+Proof. exact pn_vals_spec. Qed.
+Print Assumptions C16_png_write.
+
+(* the reference pixel format itself: hide then read gives the byte back, upper six bits kept *)
+Theorem C16_png_format_roundtrip : forall r g b a p, byte r -> byte g -> byte b -> byte a -> byte p ->
+  let '(r', g', b', a') := spec_pixel_hide r g b a p in
+  spec_pixel_byte r' g' b' a' = p /\
+  r' / 4 = r / 4 /\ g' / 4 = g / 4 /\ b' / 4 = b / 4 /\ a' / 4 = a / 4 /\
+  byte r' /\ byte g' /\ byte b' /\ byte a'.
+Proof. exact spec_pixel_roundtrip. Qed.
+Print Assumptions C16_png_format_roundtrip.
+
+(* memory layout: the slice bounds of the raw .p8.png reader (regenerated) cut the image into
+   gfx, map, gff, music, sfx, code, version in the format's order *)
+Theorem C16_png_layout : forall gfx map_ gff music sfx code v,
+  zlen gfx = 8192 -> zlen map_ = 4096 -> zlen gff = 256 -> zlen music = 256 -> zlen sfx = 4352 -> zlen code = 15616 ->
+  let img := spec_image_bytes gfx map_ gff music sfx code v in
+  py_slice img raw_gfx_lo raw_gfx_hi = gfx /\ py_slice img raw_p8map_lo raw_p8map_hi = map_ /\
+  py_slice img raw_gfx_props_lo raw_gfx_props_hi = gff /\ py_slice img raw_song_lo raw_song_hi = music /\
+  py_slice img raw_sfx_lo raw_sfx_hi = sfx /\ py_slice img raw_codedata_lo raw_codedata_hi = code /\
+  py_get img raw_version_idx = Ok v.
+Proof. exact image_slices. Qed.
+Print Assumptions C16_png_layout.
+
+(* consequently: the same memory saved as .p8 text and as .p8.png image loads to identical regions
+   (music modulo the unrepresentable bit) *)
+Theorem C16_same_cart : forall gfx map_ gff music sfx code v,
+  zlen gfx = 8192 -> zlen map_ = 4096 -> zlen gff = 256 -> zlen music = 256 ->
+  zlen sfx = 4352 -> zlen code = 15616 ->
+  Forall byte gfx -> Forall byte map_ -> Forall byte gff -> Forall byte music -> Forall byte sfx ->
+  let img := spec_image_bytes gfx map_ gff music sfx code v in
+  gfx_from_lines (spec_gfx_lines gfx) = Ok (py_slice img raw_gfx_lo raw_gfx_hi) /\
+  base_from_lines (spec_hex_lines map_) = Ok (py_slice img raw_p8map_lo raw_p8map_hi) /\
+  base_from_lines (spec_hex_lines gff) = Ok (py_slice img raw_gfx_props_lo raw_gfx_props_hi) /\
+  music_from_lines (spec_music_lines music) = Ok (music_norm (py_slice img raw_song_lo raw_song_hi)) /\
+  sfx_from_lines (spec_sfx_lines sfx) = Ok (py_slice img raw_sfx_lo raw_sfx_hi).
+Proof. exact same_cart. Qed.
+Print Assumptions C16_same_cart.
+
+(* non-vacuity: a concrete non-trivial sfx pattern with the custom-instrument bit set *)
+Example C16_nonvacuous :
+  spec_note_text 255 255 = [51; 102; 102; 55; 55]%Z /\ spec_pixel_byte 1 2 3 0 = 27 /\
+  spec_gfx_row [18] = [50; 49; 10].
+Proof. repeat split; reflexivity. Qed.
